@@ -226,6 +226,7 @@ where <A::Effect as crux_core::Effect>::Ffi: DeserializeOwned {
     let snap0 = sys[0].face.snap();
     let entry = snap0.iter().find(|(i, _)| *i == id0).map(|(_, k)| *k);
     let target = if entry.is_some() { sys[0].owner.get(&id0).copied() } else { None };
+    let target = target.filter(|&k| k < held.len());   // a bridge that issued more requests than the typed core: no mirror
     let var = target.map(|k| variants[k]).unwrap_or(V_GET);
     // bodies: same decodability on both codecs (checked with the real decoders)
     let mut bodies = vec![];
@@ -305,11 +306,17 @@ fn main() {
     let seed: u64 = args.get(1).and_then(|s| s.parse().ok()).unwrap_or(1);
     let count: usize = args.get(2).and_then(|s| s.parse().ok()).unwrap_or(10);
     let max_steps: u64 = args.get(3).and_then(|s| s.parse().ok()).unwrap_or(40);
-    std::panic::set_hook(Box::new(|_| {}));
+    if std::env::var("VERIF_PANIC_TRACE").is_err() { std::panic::set_hook(Box::new(|_| {})); }
     let mut rng = Rng::new(seed);
     for case in 0..count {
-        let lines = if case % 2 == 0 { run_history::<new_app::NewApp>(&mut rng, case, max_steps) }
-                    else { run_history::<old_app::OldApp>(&mut rng, case, max_steps) };
-        for l in lines { println!("{}", l); }
+        let mut r = Rng(rng.next());
+        let lines = catch_unwind(AssertUnwindSafe(|| {
+            if case % 2 == 0 { run_history::<new_app::NewApp>(&mut r, case, max_steps) }
+            else { run_history::<old_app::OldApp>(&mut r, case, max_steps) }
+        }));
+        match lines {
+            Ok(lines) => for l in lines { println!("{}", l); },
+            Err(_) => println!("{}", json!({"case": case, "harness_panic": true})),
+        }
     }
 }
